@@ -276,3 +276,256 @@ theorem addBlock_blockBytes (P : Pass) (nf : Nat) (cols : List (List Word)) (hn 
   simp only [List.length_nil, Nat.zero_mul, List.nil_append] at this
   rw [this]
   rfl
+
+/-! ## The consumer loop over the blocks of one pass -/
+
+/-- frames in a block = length of its first column -/
+def nfOf (cols : List (List Word)) : Nat := (cols.headD []).length
+
+/-- the pass after all its blocks -/
+def Pass.afterBlocks (P : Pass) : List (List (List Word)) → Pass
+  | [] => P
+  | cols :: bs => (P.addCols (nfOf cols) cols).afterBlocks bs
+
+/-- a block is well formed for `nch` channels -/
+def blockOk (nch : Nat) (b : List (List Word)) : Prop := b.length = nch ∧ ∃ nf, ∀ col ∈ b, col.length = nf
+
+theorem blockOk_nfOf {nch : Nat} {b : List (List Word)} (h : blockOk nch b) (hn : 0 < nch) :
+    ∀ col ∈ b, col.length = nfOf b := by
+  obtain ⟨hl, nf, hnf⟩ := h
+  cases b with
+  | nil => simp at hl; omega
+  | cons c cs =>
+    intro col hcol
+    simp only [nfOf, List.headD_cons]
+    rw [hnf col hcol, hnf c (by simp)]
+
+theorem addCols_names (P : Pass) (nf : Nat) (cols : List (List Word)) : (P.addCols nf cols).names = P.names := rfl
+
+theorem addCols_chans_length (P : Pass) (nf : Nat) (cols : List (List Word)) (h1 : P.chans.length = P.names.length)
+    (h2 : cols.length = P.names.length) : (P.addCols nf cols).chans.length = P.names.length := by
+  simp [Pass.addCols, h1, h2]
+
+theorem consume_blocks (g : Option Err) (blocks : List (List (List Word))) :
+    ∀ (P : Pass) (rest : List Block) (done : List LogPassOut), 0 < P.names.length →
+      P.chans.length = P.names.length → (∀ b ∈ blocks, blockOk P.names.length b) →
+      consume g (blocks.map (fun b => ⟨.data, blockBytes b⟩) ++ rest) done (some P)
+        = consume g rest done (some (P.afterBlocks blocks)) := by
+  induction blocks with
+  | nil => intro P rest done _ _ _; simp [Pass.afterBlocks]
+  | cons b bs ih =>
+    intro P rest done hn hch hb
+    have hbk := hb b (by simp)
+    have hadd := addBlock_blockBytes P (nfOf b) b hn hch hbk.1 (blockOk_nfOf hbk hn)
+    simp only [List.map_cons, List.cons_append, consume, Pass.afterBlocks]
+    simp only [show ¬ (TifType.data = TifType.endFile) by decide, if_false, if_true, hadd]
+    exact ih (P.addCols (nfOf b) b) rest done hn (addCols_chans_length P _ b hch hbk.1)
+      (fun x hx => hb x (by simp [hx]))
+
+theorem afterBlocks_names (blocks : List (List (List Word))) : ∀ (P : Pass), (P.afterBlocks blocks).names = P.names := by
+  induction blocks with
+  | nil => intro P; rfl
+  | cons b bs ih => intro P; simp [Pass.afterBlocks, ih, addCols_names]
+
+theorem afterBlocks_fields (blocks : List (List (List Word))) : ∀ (P : Pass),
+    (P.afterBlocks blocks).ident = P.ident ∧ (P.afterBlocks blocks).desc = P.desc ∧
+    (P.afterBlocks blocks).range = P.range ∧ (P.afterBlocks blocks).tail = P.tail := by
+  induction blocks with
+  | nil => intro P; simp [Pass.afterBlocks]
+  | cons b bs ih => intro P; simpa [Pass.afterBlocks, Pass.addCols] using ih (P.addCols (nfOf b) b)
+
+theorem afterBlocks_frameCount (blocks : List (List (List Word))) : ∀ (P : Pass),
+    (P.afterBlocks blocks).frameCount = P.frameCount + (blocks.map nfOf).sum := by
+  induction blocks with
+  | nil => intro P; simp [Pass.afterBlocks]
+  | cons b bs ih => intro P; simp [Pass.afterBlocks, ih, Pass.addCols]; omega
+
+theorem getD_zipWith_append (as : List (List Fl)) (bs : List (List Fl)) (c : Nat) (h1 : c < as.length) (h2 : c < bs.length) :
+    (List.zipWith (· ++ ·) as bs).getD c [] = as.getD c [] ++ bs.getD c [] := by
+  simp [List.getD_eq_getElem?_getD, List.getElem?_zipWith, List.getElem?_eq_getElem, h1, h2]
+
+theorem chans_eq_range (chans : List (List Fl)) : chans = (List.range chans.length).map (fun c => chans.getD c []) := by
+  apply List.ext_getElem
+  · simp
+  · intro i h1 h2
+    simp [List.getD_eq_getElem?_getD, List.getElem?_eq_getElem, h1]
+
+theorem afterBlocks_chans (nch : Nat) (blocks : List (List (List Word))) : ∀ (P : Pass),
+    P.chans.length = nch → (∀ b ∈ blocks, b.length = nch) →
+    (P.afterBlocks blocks).chans
+      = (List.range nch).map (fun c => P.chans.getD c [] ++ (blocks.flatMap (fun b => b.getD c [])).map genWord) := by
+  induction blocks with
+  | nil =>
+    intro P h _
+    simp only [Pass.afterBlocks, List.flatMap_nil, List.map_nil, List.append_nil]
+    rw [← h]; exact chans_eq_range P.chans
+  | cons b bs ih =>
+    intro P h hb
+    have hbl : b.length = nch := hb b (by simp)
+    have hlen : (P.addCols (nfOf b) b).chans.length = nch := by simp [Pass.addCols, h, hbl]
+    rw [Pass.afterBlocks, ih (P.addCols (nfOf b) b) hlen (fun x hx => hb x (by simp [hx]))]
+    apply List.map_congr_left
+    intro c hc
+    have hc' : c < nch := by simpa using hc
+    simp only [Pass.addCols]
+    rw [getD_zipWith_append _ _ c (by omega) (by simp; omega)]
+    simp [List.getD_eq_getElem?_getD, List.getElem?_map, List.getElem?_eq_getElem, hbl, hc']
+
+/-! ## One pass, all passes -/
+
+/-- the blocks the walker yields for one encoded pass -/
+def passBlocks (p : PassC) : List Block :=
+  ⟨.data, headerBytes p⟩ :: (p.blocks.map (fun b => ⟨.data, blockBytes b⟩) ++ [⟨.endLogPass, []⟩])
+
+/-- `iter f n a = f (f (… a))`, `n` times -/
+def iter {α : Type} (f : α → α) : Nat → α → α
+  | 0, a => a
+  | n + 1, a => iter f n (f a)
+
+/-- one step of the X axis: towards larger values iff stop > start -/
+def xStep (range : List Fl) (x : Fl) : Fl :=
+  if isIncreasing range then fadd x (range.getD 2 ⟨false, 0⟩) else fsub x (range.getD 2 ⟨false, 0⟩)
+
+/-- SPEC of the X axis: value `i` is the start depth moved `i` times by the spacing (binary64 steps) -/
+def xSpec (range : List Fl) (n : Nat) : List Fl :=
+  (List.range n).map (fun i => iter (xStep range) i (range.getD 0 ⟨false, 0⟩))
+
+/-- frames recorded in a pass: sum over its blocks -/
+def frames (p : PassC) : Nat := (p.blocks.map nfOf).sum
+
+/-- SPEC: what a reader must report for pass number `i` with content `p` (values through the decoders AS CODED) -/
+def expectedPass (i : Nat) (p : PassC) : LogPassOut :=
+  ⟨i, p.desc, p.names, p.range.map ibmWord, p.tail, frames p,
+    some (xSpec (p.range.map ibmWord) (frames p), (chanWords p.names.length p.blocks).map (·.map genWord))⟩
+
+def expectedFrom : Nat → List PassC → List LogPassOut
+  | _, [] => []
+  | i, p :: ps => expectedPass i p :: expectedFrom (i + 1) ps
+
+theorem xAxisGo_eq (inc : Bool) (sp : Fl) (n : Nat) : ∀ x : Fl,
+    xAxisGo inc sp n x = (List.range n).map (fun i => iter (fun y => if inc then fadd y sp else fsub y sp) i x) := by
+  induction n with
+  | zero => intro x; simp [xAxisGo]
+  | succ n ih =>
+    intro x
+    rw [xAxisGo, ih, List.range_succ_eq_map]
+    simp [iter]
+
+theorem complete_afterBlocks (i : Nat) (p : PassC) (h : p.wf) :
+    complete ((initPass i p).afterBlocks p.blocks) = .ok (expectedPass i p) := by
+  have hn := afterBlocks_names p.blocks (initPass i p)
+  obtain ⟨hid, hdesc, hrange, htail⟩ := afterBlocks_fields p.blocks (initPass i p)
+  have hfc := afterBlocks_frameCount p.blocks (initPass i p)
+  have hch := afterBlocks_chans p.names.length p.blocks (initPass i p) (by simp [initPass])
+    (fun b hb => (h.blocks b hb).1)
+  have hlen : ((initPass i p).afterBlocks p.blocks).chans.length = p.names.length := by
+    rw [hch]; simp
+  unfold complete
+  have hpos := h.nch_pos
+  rw [if_neg (by omega), hn]
+  have hnd : hasDup (xIdent :: (initPass i p).names) = false := h.nodup
+  simp only [hnd, Bool.false_eq_true, if_false, hid, hdesc, hrange, htail, hfc, hch]
+  simp only [initPass, Nat.zero_add, expectedPass, frames, xSpec, xAxisGo_eq, chanWords, xStep]
+  congr 4
+  simp only [List.map_map]
+  apply List.map_congr_left
+  intro c hc
+  have hc' : c < p.names.length := by simpa using hc
+  simp [List.getD_eq_getElem?_getD, List.getElem?_map, List.getElem?_eq_getElem, hc']
+
+theorem consume_pass (g : Option Err) (p : PassC) (h : p.wf) (rest : List Block) (done : List LogPassOut) :
+    consume g (passBlocks p ++ rest) done none = consume g rest (done ++ [expectedPass done.length p]) none := by
+  unfold passBlocks
+  simp only [List.cons_append, List.append_assoc, consume]
+  simp only [show ¬ (TifType.data = TifType.endFile) by decide, show ¬ (TifType.data = TifType.endLogPass) by decide,
+    if_false, parseHeader_headerBytes _ p h]
+  rw [consume_blocks g p.blocks (initPass done.length p) _ done h.nch_pos (by simp [initPass])
+    (fun b hb => h.blocks b hb)]
+  simp only [List.cons_append, List.nil_append, consume]
+  simp only [show ¬ (TifType.endLogPass = TifType.endFile) by decide, show ¬ (TifType.endLogPass = TifType.data) by decide,
+    if_false, complete_afterBlocks _ p h]
+
+theorem consume_passes (ps : List PassC) : ∀ (done : List LogPassOut), (∀ p ∈ ps, p.wf) →
+    consume none (ps.flatMap passBlocks ++ [⟨.endFile, []⟩]) done none = .ok (done ++ expectedFrom done.length ps) := by
+  induction ps with
+  | nil => intro done _; simp [consume, finish, expectedFrom]
+  | cons p ps ih =>
+    intro done h
+    rw [List.flatMap_cons, List.append_assoc, consume_pass none p (h p (by simp))]
+    rw [ih _ (fun q hq => h q (by simp [hq]))]
+    simp [expectedFrom]
+
+/-! ## classification of the encoder's records -/
+
+theorem classify_data (pt : Nat) (blocks : List (List (List Word))) (rest : List (Nat × List Nat)) :
+    classify 0 (blocks.map (fun b => (0, blockBytes b)) ++ rest)
+      = blocks.map (fun b => (⟨.data, blockBytes b⟩ : Block)) ++ classify 0 rest := by
+  induction blocks with
+  | nil => simp
+  | cons b bs ih => simp [classify, ih]
+
+theorem classify_pass (pt : Nat) (p : PassC) (more : List (Nat × List Nat)) :
+    classify pt (passRecords p ++ more) = passBlocks p ++ classify 1 more := by
+  unfold passRecords passBlocks
+  simp only [List.cons_append, List.append_assoc, classify, if_true]
+  rw [classify_data pt]
+  simp [classify]
+
+theorem classify_file (ps : List PassC) :
+    classify 1 (fileRecords ps) = ps.flatMap passBlocks ++ [⟨.endFile, []⟩] := by
+  unfold fileRecords
+  induction ps with
+  | nil => simp [classify]
+  | cons p ps ih => rw [List.flatMap_cons, List.append_assoc, classify_pass, ih]; simp
+
+theorem layout_length_ge (recs : List (Nat × List Nat)) : ∀ tell prev, 12 * recs.length ≤ (layout tell prev recs).length := by
+  induction recs with
+  | nil => intro _ _; simp [layout]
+  | cons r rs ih =>
+    obtain ⟨typ, pl⟩ := r
+    intro tell prev
+    rw [layout_length_cons]
+    have := ih (tell + 12 + pl.length) tell
+    simp only [List.length_cons]; omega
+
+theorem fileRecords_types (ps : List PassC) : ∀ r ∈ fileRecords ps, r.1 < 2 ^ 32 := by
+  intro r hr
+  simp only [fileRecords, passRecords, List.mem_append, List.mem_flatMap, List.mem_cons, List.mem_map,
+    List.mem_singleton] at hr
+  rcases hr with ⟨p, _, h | h | h⟩ | h
+  · subst h; simp
+  · obtain ⟨b, _, rfl⟩ := h; simp
+  · rcases h with h | h
+    · subst h; simp
+    · simp at h
+  · rcases h with h | h
+    · subst h; simp
+    · simp at h
+
+/-! ## small helpers used by the property theorems -/
+
+theorem pow16_pos (e : Nat) : 0 < pow16 e := Rat.zpow_pos (by decide)
+
+theorem column_length (p : PassC) (h : p.wf) (c : Nat) (hc : c < p.names.length) :
+    ∀ blocks : List (List (List Word)), (∀ b ∈ blocks, blockOk p.names.length b) →
+      (blocks.flatMap (fun b => b.getD c [])).length = (blocks.map nfOf).sum := by
+  intro blocks
+  induction blocks with
+  | nil => intro _; simp
+  | cons b bs ih =>
+    intro hb
+    have hbk := hb b (by simp)
+    have hcb : c < b.length := by rw [hbk.1]; exact hc
+    have : (b.getD c []).length = nfOf b := by
+      apply blockOk_nfOf hbk h.nch_pos
+      simp [List.getD_eq_getElem?_getD, List.getElem?_eq_getElem, hcb]
+    simp only [List.flatMap_cons, List.length_append, List.map_cons, List.sum_cons, this]
+    rw [ih (fun x hx => hb x (by simp [hx]))]
+
+theorem iter_succ_outer {α : Type} (f : α → α) (n : Nat) : ∀ a, iter f (n + 1) a = f (iter f n a) := by
+  induction n with
+  | zero => intro a; rfl
+  | succ n ih => intro a; rw [iter, ih (f a)]; rfl
+
+
+end TD.C13
